@@ -124,6 +124,35 @@ func compiledPattern(t *Term) (string, bool) {
 				}
 			}
 		}
+		// assigned exactly once, lazily, inside the function handed to a package-level sync.Once (`once.Do(func() { re = MustCompile(…) })`)
+		if assigns == 1 {
+			if sp := progForFacts.SSAPkg(pp); sp != nil {
+				var val ssa.Value
+				var host *ssa.Function
+				n := 0
+				for _, fn := range progForFacts.ModFuncs {
+					if fn.Pkg != sp && (fn.Parent() == nil || fn.Parent().Pkg != sp) {
+						continue
+					}
+					for _, b := range fn.Blocks {
+						for _, in := range b.Instrs {
+							if st, ok := in.(*ssa.Store); ok {
+								if g, ok := st.Addr.(*ssa.Global); ok && g.Name() == name && g.Pkg == sp {
+									val, host = st.Val, fn
+									n++
+								}
+							}
+						}
+					}
+				}
+				if n == 1 && host != nil && host.Parent() != nil && onlyRunBySyncOnce(host) {
+					it := NewOrigin(progForFacts, host).Of(val)
+					if it.IsCall("regexp.MustCompile") && len(it.Args) == 1 {
+						return foldString(it.Args[0])
+					}
+				}
+			}
+		}
 		return "", false
 	}
 	return "", false
@@ -154,7 +183,12 @@ func acceptFormula(p *Prog, fn *ssa.Function) *Formula {
 	// a validator applied to one field stays an atom (it is summarised into length × language by classifyMsgAtom); any other
 	// error-returning helper (an extracted group of checks) is replaced by its own accept condition
 	fa.ErrExpand = func(atom *Formula) int {
-		if _, _, ok := classifyMsgAtom(p, atom.Term); ok {
+		if cls, _, ok := classifyMsgAtom(p, atom.Term); ok {
+			// a helper that only asks for presence / non-emptiness (no upper bound, no pattern) is not a length × language
+			// validator: its own conditions are what the field expectations (non-nil, non-empty) are matched against
+			if g := errHelperOfAtom(p, atom.Term); g != nil && (cls.Kind == "lang" && cls.Spec.Pat == "" && cls.Spec.Hi < 0 || strings.HasPrefix(cls.Kind, "validator?")) {
+				return 2
+			}
 			return 1
 		}
 		return 2
@@ -1361,4 +1395,59 @@ func optionalFieldValidated(p *Prog, A *Formula, field string, preds []string, d
 		}
 	}
 	return false
+}
+
+
+// onlyRunBySyncOnce: the anonymous function is used only as the argument of (*sync.Once).Do.
+func onlyRunBySyncOnce(fn *ssa.Function) bool {
+	par := fn.Parent()
+	if par == nil {
+		return false
+	}
+	n := 0
+	for _, b := range par.Blocks {
+		for _, in := range b.Instrs {
+			c, ok := in.(ssa.CallInstruction)
+			if !ok {
+				continue
+			}
+			for _, a := range c.Common().Args {
+				v := a
+				if mc, isMC := v.(*ssa.MakeClosure); isMC {
+					v = mc.Fn
+				}
+				if v == ssa.Value(fn) {
+					if calleeName(c.Common()) != "(*sync.Once).Do" {
+						return false
+					}
+					n++
+				}
+			}
+		}
+	}
+	return n == 1
+}
+
+
+// errHelperOfAtom: the module function h in an atom of the form h(args…) == nil / res#k(h(args…)) == nil.
+func errHelperOfAtom(p *Prog, t *Term) *ssa.Function {
+	if t == nil || t.Op != "eq" || len(t.Args) != 2 {
+		return nil
+	}
+	x := t.Args[0]
+	if x.Op == "const" {
+		x = t.Args[1]
+	}
+	if x.Op == "res" && len(x.Args) == 1 {
+		x = x.Args[0]
+	}
+	if x.Op != "call" {
+		return nil
+	}
+	if c, ok := x.Val.(*ssa.Call); ok {
+		if g := c.Call.StaticCallee(); g != nil && InModule(g) {
+			return g
+		}
+	}
+	return nil
 }
